@@ -144,6 +144,28 @@ impl Scenario for Skip {
         if rng.chance(1, 12) {
             p.note = format!("stretched: {}", stretch_tokens(rng, &mut toks, true));
         }
+        let declared = toks.iter().any(|t| t.raw.windows(8).any(|w| w == b"encoding"));
+        if cfg!(feature = "enc") && !declared && rng.chance(1, 8) {
+            // an embedded prolog: the first encoding declaration of the input lies INSIDE an
+            // element (an envelope around a concatenated document), and the text after it
+            // has bytes >= 0x80; read_text must decode the span with the encoding in force
+            // after the call. Only in the `encoding` build: without it such bytes are
+            // simply not UTF-8 and read_text fails by design.
+            let starts: Vec<usize> = (0..toks.len()).filter(|&i| toks[i].k == TK::Start).collect();
+            if !starts.is_empty() {
+                let at = *rng.pick(&starts) + 1;
+                toks.insert(at, Tok::new(TK::PI, "<?xml version=\"1.0\" encoding=\"windows-1251\"?>"));
+                for t in toks.iter_mut().skip(at + 1) {
+                    if t.k == TK::Text && rng.bool() {
+                        t.raw.extend_from_slice(&[0xCF, 0xF0, 0xE8]);
+                    }
+                }
+                if !toks.iter().skip(at + 1).any(|t| t.k == TK::Text) {
+                    toks.insert(at + 1, Tok { k: TK::Text, raw: vec![0xCF, 0xF0], name: String::new(), attrs: vec![] });
+                }
+                p.note.push_str(" embedded windows-1251 declaration");
+            }
+        }
         p.toks = toks;
         p.sync_doc();
         let mut cfg = CFG_TRIM_NAMES;
@@ -539,7 +561,14 @@ impl Scenario for Skip {
                         v.push(Violation::new("C12", "skip-failure-wrong", format!("op {}: the element's end tag is not in the input but the call returned Ok({:?})", oi, g.0)));
                         return;
                     }
-                    (Err(e), Some(_), None, false) => {
+                    (Err(e), Some((want_span, _)), None, false) => {
+                        // read_text over bytes that the encoding in force cannot decode fails by
+                        // design (the element itself was consumed): not a C12 matter
+                        let span_bytes = &plan.doc[want_span.0 as usize..want_span.1 as usize];
+                        if text_mode && matches!(e, Error::Encoding(_)) && rd.decoder().decode(span_bytes).is_err() {
+                            fail_paths += 1;
+                            return;
+                        }
                         v.push(Violation::new("C12", "skip-failed", format!("op {}: skipping <{}> failed with {:?} although its end tag is present", oi, String::from_utf8_lossy(&name), e)));
                         return;
                     }
@@ -560,7 +589,9 @@ impl Scenario for Skip {
                             return;
                         }
                         if let Some(t) = text {
-                            let want = String::from_utf8_lossy(&plan.doc[want_span.0 as usize..want_span.1 as usize]).into_owned();
+                            // "the input text of that span": decoded with the encoding in force after the call
+                            let span_bytes = &plan.doc[want_span.0 as usize..want_span.1 as usize];
+                            let want = rd.decoder().decode(span_bytes).map(|c| c.into_owned()).unwrap_or_else(|_| String::from_utf8_lossy(span_bytes).into_owned());
                             if *t != want {
                                 v.push(Violation::new("C12", "wrong-text", format!("op {}: read_text returned {:?}, the input text of the span is {:?}", oi, crate::core::lossy(t.as_bytes()), crate::core::lossy(want.as_bytes()))));
                                 return;
@@ -622,7 +653,7 @@ pub struct Ns;
 const XML_URI: &[u8] = b"http://www.w3.org/XML/1998/namespace";
 const XMLNS_URI: &[u8] = b"http://www.w3.org/2000/xmlns/";
 const XSI_URI: &[u8] = b"http://www.w3.org/2001/XMLSchema-instance";
-const PROBE_PREFIXES: &[&str] = &["", "p", "q", "r", "xml", "xmlns", "z"];
+const PROBE_PREFIXES: &[&str] = &["", "p", "q", "r", "xml", "xmlns", "z", "pq", "pp", "xmlx", "x"];
 
 #[derive(Clone, Debug, Default)]
 struct Scope {
